@@ -600,9 +600,29 @@ pub fn execute(scn: &Scn, chooser: &mut dyn Chooser, probe: bool) -> Result<Obse
     let mut cand_blocked: Option<usize> = None;
     let mut cand_since = Instant::now();
     let mut stuck = false;
+    let mut deadlock: Option<String> = None;
+    let mut none_parked_since: Option<Instant> = None;
+    let mut starved_since: Option<Instant> = None;
+    let deadlock_after = Duration::from_secs(std::env::var("VERIF_E2_DEADLOCK_S").ok().and_then(|s| s.parse().ok()).unwrap_or(10));
     {
         let mut g = ctl.m.lock().unwrap();
         loop {
+            // every unfinished worker is inside the code under test (none is held by the controller,
+            // none is about to be resumed) and stays there: the requests wait for each other
+            let held = g.st.iter().any(|s| matches!(s, St::Parked(_) | St::NotStarted)) || g.grant.is_some();
+            if held || g.st.iter().all(|s| *s == St::Finished) {
+                none_parked_since = None;
+            } else if none_parked_since.is_none() {
+                none_parked_since = Some(Instant::now());
+            }
+            if let Some(t) = none_parked_since {
+                if t.elapsed() > deadlock_after {
+                    deadlock = Some(format!("states {:?} after schedule {:?}", g.st, g.trace.iter().map(|(_, w, p)| format!("w{w}:{p:?}")).collect::<Vec<_>>()));
+                    g.abort = true;
+                    ctl.cv.notify_all();
+                    break;
+                }
+            }
             if t0.elapsed() > Duration::from_secs(std::env::var("VERIF_E2_WATCHDOG_S").ok().and_then(|s| s.parse().ok()).unwrap_or(25)) {
                 if std::env::var("VERIF_E2_TIMING").is_ok() {
                     eprintln!("STUCK st={:?} grant={:?} open={:?} active={:?} blocked_attempts={} overlap={} cand={:?} trace={:?}", g.st, g.grant, g.open, g.active, g.blocked_attempts, g.overlap_seen, cand_blocked, g.trace.iter().map(|(s, w, p)| format!("{s}:w{w}:{p:?}")).collect::<Vec<_>>());
@@ -659,11 +679,27 @@ pub fn execute(scn: &Scn, chooser: &mut dyn Chooser, probe: bool) -> Result<Obse
                 }
             }
             if options.is_empty() {
-                // only blocked workers remain (waiting for the backend's lock): wait for them
+                // only blocked workers remain (waiting for the backend's lock): wait for them. If
+                // that lasts, the workers the exploration policy keeps back are released too, so
+                // that nothing but the code under test decides whether the requests complete.
+                let kept_back: Vec<usize> = (0..n).filter(|w| matches!(g.st[*w], St::Parked(_))).collect();
+                if !kept_back.is_empty() {
+                    let since = *starved_since.get_or_insert_with(Instant::now);
+                    if since.elapsed() > Duration::from_millis(400) {
+                        starved_since = None;
+                        let w = kept_back[0];
+                        cand_blocked = Some(w);
+                        cand_since = Instant::now();
+                        g.grant = Some(w);
+                        ctl.cv.notify_all();
+                        continue;
+                    }
+                }
                 let (g2, _) = ctl.cv.wait_timeout(g, Duration::from_millis(5)).unwrap();
                 g = g2;
                 continue;
             }
+            starved_since = None;
             let pick = if options.len() == 1 { 0 } else { chooser.choose_worker(&options) };
             let w = options[pick];
             // any granted worker may turn out to be waiting for the backend's lock (another
@@ -676,6 +712,14 @@ pub fn execute(scn: &Scn, chooser: &mut dyn Chooser, probe: bool) -> Result<Obse
             g.grant = Some(w);
             ctl.cv.notify_all();
         }
+    }
+    if let Some(d) = deadlock {
+        // the worker threads are left behind (they never return)
+        return Err(format!("deadlock: {d}"));
+    }
+    if stuck {
+        // do not wait for threads that may never return
+        return Err("execution did not finish within the watchdog".into());
     }
     for h in handles {
         let _ = h.join();
